@@ -62,6 +62,10 @@ CHECKS = {
          "Every character-data operation with every offset, count and argument string of the alphabet is applied to text, attribute-text, comment and CDATA nodes holding ASCII, multi-byte, astral and combining characters in every reachable state up to the depth bound; result, successor data, exception class, atomic failure and absence of panics are compared with the reference.",
          "Trusts the DOM Level 1 reading in mc/src/model/dom.rs (offset > length: index-size; count past the end: clipped); argument strings hold no markup characters.",
          "DESIGN.md §5 C16"),
+ "C19": ("bounded-exhaustive query histories: all sequences up to length n over a pool of 48 queries (incl. ones failing inside predicates, filters and arguments) against one document object and one shared context, each answer compared with the fresh-parse fresh-context answer, document state compared before/after; every document parsed twice",
+         "Every query sequence up to the bound is issued on a shared context and document; each answer must equal the answer the query gets alone, and the document's serialization, ids and order keys must not change; two parses of one text must be equal in every observation.",
+         "The pool of queries and the four documents bound the histories; equality of answers is by the harness's value dump with nodes mapped to the reference tree.",
+         "DESIGN.md §5 C19"),
  # id: (technique, level text, level note, design_ref)
  "C18": ("total enumeration of all 1,114,112 scalar values + bounded-exhaustive name strings (len<=3/4 over 30 class representatives) in 8 syntactic positions, against transcribed tables",
          "Every Unicode scalar value is classified by the five public predicates and compared with tables transcribed from the Recommendation (complete, no bound); every short string over class representatives and range boundaries is offered as a name in every syntactic position and accept/reject compared with reference Name/NCName/QName matchers.",
